@@ -227,11 +227,12 @@ def initRowsCode (F Finit : Residual) (s : Sys) (c : Mem) (X : Vec) : List Rat :
 def isConstPar (E : Nat) (pvals : Nat → List Rat) (j : Nat) : Bool :=
   E == 1 || (List.range (E - 1)).all (fun m => (pvals (m + 1)).getD j 0 == (pvals 0).getD j 0)
 
-/-- value the residual of member `m` sees for parameter `j`: inlined (member 0's value) for a
-    constant parameter, the member's own column of `ensemble_aggregate["parameters"]` otherwise -/
-def effPar (E npar : Nat) (pvals : Nat → List Rat) (m : Nat) : List Rat :=
+/-- value the residual of member `m` sees for parameter `j`: inlined (member 0's value, frozen in
+    the cached residual function) for a parameter that is constant over the ensemble and not
+    declared dynamic; the member's own column of `ensemble_aggregate["parameters"]` otherwise -/
+def effPar (E npar : Nat) (dyn : Nat → Bool) (pvals : Nat → List Rat) (m : Nat) : List Rat :=
   (List.range npar).map (fun j =>
-    if isConstPar E pvals j then (pvals 0).getD j 0 else (pvals m).getD j 0)
+    if isConstPar E pvals j && !dyn j then (pvals 0).getD j 0 else (pvals m).getD j 0)
 
 /-- the test on the unrepaired tree (finding F1): `np.all(values) == values[0]` -/
 def isConstParLegacy (E : Nat) (pvals : Nat → List Rat) (j : Nat) : Bool :=
@@ -272,6 +273,8 @@ structure Inst where
   npar : Nat
   /-- the member's own parameter values -/
   pvals : Nat → List Rat
+  /-- parameter `j` is declared in `dynamic_parameters()` (never inlined) -/
+  dyn : Nat → Bool
   /-- the member's own series of constant input `j` -/
   cin : Nat → Nat → Knots
   /-- interpolation mode of constant input `j` -/
@@ -303,7 +306,7 @@ def Inst.wfb (I : Inst) : Bool :=
 def Inst.mem (I : Inst) (m : Nat) : Mem where
   idx := I.idx m
   didx := I.didx m
-  par := effPar I.E I.npar I.pvals m
+  par := effPar I.E I.npar I.dyn I.pvals m
   civ := fun j => ciVals (I.cmode j) (I.cin m j) I.sys.tsL
   dconst := fun v => histDer (I.hist m v) I.sys.t0
   extraU := I.extraU m
